@@ -151,21 +151,22 @@ def _loop_index(sel, loops, src, toks, f, fn):
         if n >= len(loops):
             raise Lost("%s::%s: loop %d not found (function has %d loops)" % (f, fn, n, len(loops)))
         return n
-    m = re.fullmatch(r"/(.*)/", sel)
+    m = re.fullmatch(r"(~?)/(.*)/", sel)
     if not m:
         raise ValueError("bad loop selector " + sel)
     for i, lp in enumerate(loops):
-        hdr = src[toks[lp["kw_tok"]].start:toks[lp["body_open"]].start]
-        if re.search(m.group(1), hdr):
+        # /RE/ is matched against the loop header, ~/RE/ against the whole loop text (header and body)
+        hdr = src[toks[lp["kw_tok"]].start:(toks[lp["body_close"]].end if m.group(1) else toks[lp["body_open"]].start)]
+        if re.search(m.group(2), hdr):
             return i
-    raise Lost("%s::%s: no loop header matches /%s/" % (f, fn, m.group(1)))
+    raise Lost("%s::%s: no loop matches %s" % (f, fn, sel))
 
 
 def _split_loop_sel(words):
     """['loop', SEL..., what, ...] where SEL may contain spaces if it is a /regex/ -> (sel, rest)"""
-    if words[1].startswith("/"):
+    if words[1].startswith("/") or words[1].startswith("~/"):
         j = 1
-        while not (words[j].endswith("/") and (j > 1 or len(words[j]) > 1)):
+        while not (words[j].endswith("/") and (j > 1 or len(words[j].lstrip("~")) > 1)):
             j += 1
         return " ".join(words[1:j + 1]), words[j + 1:]
     return words[1], words[2:]
@@ -498,7 +499,10 @@ class Weaver:
                           loops=len(loops)))
         u.functions.append(dict(name=qual, file=f, fn=head["fn"], impl=head.get("impl"),
                                 repo_line=src.count("\n", 0, it.start) + 1, piece_lo=start_piece,
-                                piece_hi=len(u.pieces)))
+                                piece_hi=len(u.pieces),
+                                # loops of the CURRENT repo text the template gives no invariant for: a proof of this
+                                # function cannot even be attempted (a failure is then `undecided`, not a violation)
+                                unannotated_loops=[n for n in range(len(loops)) if not any((n, w_) in loop_hdr for w_ in ("invariant", "invariant_except_break"))]))
 
     def _inline(self, real_f, f, src, toks, it, head, helper, elog):
         """returns (virtual file key, virtual src, toks, item) with every `helper(A.., || [-> T] { BODY })?` call in the
